@@ -18,6 +18,9 @@ CHECKS = {
  "C02": dict(cat="model_checking", tech="TLA+ model of the lemon driver (LemonParser.tla) over action tables extracted from the parser source at check time, explored exhaustively by TLC; lemon's own ParseTrace output of real conversions validated step by step against the model (LemonParserTrace.tla); writers' case labels extracted into WriterCases.tla and checked for mutual consistency; end-to-end escapes monitored by CompleteTrace.tla",
              text="Parser half: complete - TLC explores every reachable parser stack (about 7k with symbols) x every realizable line kind over the code's own tables: no syntax error, failure or stack overflow, end of input accepted, for documents of any length. The model is bound to the code by validating every recorded Parse() call (nested parser instances too) of generated line sequences and the corpus against it. Writer half: bounded - every sequence of <=2 (sampled/all 3) line spellings, simulated 12-line documents and the corpus x 7 writers x 2 modes must return a rendering without exit(), 'unknown token', 'parser failed' or 'syntax error'; plus a static consistency check of the writers' dispatch tables.",
              note="Alphabet assumption (three pseudo line kinds never produced) is re-checked on every trace. Inline token kinds are covered by corpus + spellings only.", ref="5/C02"),
+ "C15": dict(cat="model_checking", tech="TLA+ tree invariant (TreeInv.tla) evaluated by TLC on dumps of the real token tree after parse, sub-range parse and every export; enum relations (TokenEnum.tla over constants generated from the headers) checked by TLC",
+             text="The invariant (finite tree, root spans the parsed range, spans inside the source, next/prev symmetric, sibling starts non-decreasing, mates symmetric) lives in TLA+; the harness only serialises pointers as node numbers. TLC evaluates it on every dump: corpus and pool documents x 4-9 extension sets x 4-7 formats plus TLC-generated line sequences, after parse, after each export and after three sub-range parses. The compile-time relations between the published enum and the library's tables are TLC invariants over a module generated from the headers.",
+             note="Bounded by the inputs explored (monitor, not a proof); one known finding (inline abbreviation/glossary definitions) is listed in KNOWN_FINDINGS.txt by cause signature.", ref="5/C15"),
 }
 NOT_APPLICABLE = {}
 def main():
